@@ -354,7 +354,8 @@ def separated(qs, i):
 def _dyadic(m, bits):
     """The matrix rounded to multiples of 2^-k, k such that its largest entry keeps [bits] significant bits (exact floats).  Coq's
     rationals are binary trees: 53-bit mantissas make the Mahalanobis forms of one campaign cost 12 s, these 1 s; the rounding
-    moves a score by ~2^-12 of the distance, far below the tolerance thr / 4 >= 10 / 1024."""
+    (18 bits for the templates, 20 for the inverse covariance) moves a score by < 0.004 in the worst case (S^2 d^2 |P| 2^-20 / S,
+    |d| <= 18), below the tolerance thr / 4 >= 10 / 1024."""
     m = np.asarray(m, dtype='float64')
     top = float(np.max(np.abs(m))) if m.size else 0.0
     if not math.isfinite(top) or top == 0.0:
@@ -407,8 +408,8 @@ def make_case(rng, tier, cipher=None, sf=None, keysize=None, model=None, amp=Non
     ark = is_ark(case)
     if model is None:
         model = ['hw'] if ark else rng.choice([['hw'], ['hw'], ['monobit', rng.randrange(4 if cipher == 'des' else 8)], ['value']])
-    if model[0] == 'value' and cipher == 'aes' and rng.random() < 0.5:
-        model = ['hw']
+        if model[0] == 'value' and cipher == 'aes' and rng.random() < 0.5:
+            model = ['hw']
     case['model'] = model
     nwords = 16 if cipher == 'aes' else 8
     k = 2 if tier == 'quick' else rng.choice([2, 3])
@@ -453,6 +454,12 @@ def boundary(rng, tier):
     yield c
     c = make_case(rng, tier, cipher='aes', sf='LastSubBytes', keysize=16, model=['monobit', 0], amp=1, N=100, batch=7)
     yield c
+    # DPA with Monobit on both ciphers, Value leakage
+    yield make_case(rng, tier, cipher='aes', sf='FirstSubBytes', keysize=24, model=['monobit', 7], amp=2, N=120, batch=0)
+    yield make_case(rng, tier, cipher='des', sf='FirstSboxes', model=['monobit', 3], amp=1, batch=50)
+    yield make_case(rng, tier, cipher='des', sf='LastSboxes', model=['monobit', 0], amp=2, N=120, batch=7)
+    yield make_case(rng, tier, cipher='aes', sf='LastSubBytes', keysize=32, model=['value'], amp=2, batch=50)
+    yield make_case(rng, tier, cipher='des', sf='FeistelRLastRounds', model=['value'], amp=1, batch=0)
     # noise-free: r = 1, NICV = 1 at the true key
     yield make_case(rng, tier, cipher='aes', sf='FirstSubBytes', keysize=16, model=['hw'], amp=0, N=80, batch=0)
     yield make_case(rng, tier, cipher='des', sf='FirstSboxes', model=['value'], amp=0, N=80, batch=7)
@@ -465,7 +472,7 @@ class CampaignKind(Kind):
     check_fn = 'camp_check'
     corr_fn = 'camp_wiring'
     explain_fn = 'camp_explain'
-    shard = 2
+    shard = 3
     rule = ('simulated campaign: AES-128/192/256 First/LastAddRoundKey, First/LastSubBytes, DeltaRLastRounds and DES First/Last AddRoundKey, '
             'Sboxes, FeistelR, DeltaR selection functions (encrypt namespace), FIPS and random keys, 80-120 random plaintexts, 2-3 attacked '
             'words, HammingWeight / Monobit / Value leakage at 1-2 of 4-6 samples + integer noise in [-a, a], a in 0..2, batch sizes 7 / 50 / '
@@ -475,7 +482,7 @@ class CampaignKind(Kind):
     def gen(self, rng, tier):
         for c in boundary(rng, tier):
             yield c
-        for _ in range(8 if tier == 'quick' else 220):
+        for _ in range(8 if tier == 'quick' else 170):
             yield make_case(rng, tier)
 
     # ------------------------------------------------------------------------------------------ driving the real code
@@ -558,8 +565,8 @@ class CampaignKind(Kind):
                     cand[wi].add(int(am[j]))
                 entry['_scores'] = sc2
             if att['cls'] == 'tdpa':
-                entry['T'] = _dyadic(np.asarray(a.templates), 12)
-                entry['P'] = _dyadic(np.asarray(a.pooled_covariance_inv), 14)
+                entry['T'] = _dyadic(np.asarray(a.templates), 18)
+                entry['P'] = _dyadic(np.asarray(a.pooled_covariance_inv), 20)
             per.append(entry)
         rng = random.Random(case['data_seed'] ^ 0x5EED)
         obs['words'] = []
@@ -683,7 +690,7 @@ def coverage_extra():
     for (cls, what), n in sorted(_STATS.items()):
         tot.setdefault(cls, {})[what] = n
     return {'certificate': {'per_attack_class': tot,
-                            'rule': 'sep = the spec pipeline ranks one evaluated guess first with margin (best - worst)/8 >= max|score|/256; '
+                            'rule': 'sep = the spec pipeline ranks the expected key first among the evaluated guesses with margin (best - worst)/8 >= max|score|/256; '
                                     'discarded = it does not (nothing is asserted for that attack object and word)'}}
 
 
